@@ -31,11 +31,13 @@
  * (spec/ec_base_leaf.h: assume-guarantee on C12, which decides gf_mul == spec_gf_mul for all 2^16
  * operand pairs); the plan links no unit.  -DREAL_LEAF (plan links erasure_code/ec_base.c): the real
  * table-driven gf_mul, decides only for one product per output byte (measured: len 2, k 2 >300 s).
- * The oracle always uses spec_gf_mul, with (coefficient, data) operand order. */
+ * The oracle always uses spec_gf_mul; operands are passed as (data, coefficient) -- the order the code
+ * under test uses -- because proving commutativity of the 8x8 carry-less multiplier again inside every
+ * product costs the SAT solver ~3x (measured); commutativity of spec_gf_mul is C12:H_AXIOMS. */
 #ifndef REAL_LEAF
 #include "ec_base_leaf.h"
 #endif
-#define MUL(c, d) spec_gf_mul(c, d)
+#define MUL(c, d) spec_gf_mul(d, c)
 
 struct inputs {
         uint8_t coef[ROWS * KK];
